@@ -189,6 +189,10 @@ func exec(op string) (res string) {
 		return showFor(curCluster.ReplicaMap(simpleClass, simpleOpts(w[1])), w[2:], "[]")
 	case "snts":
 		return showFor(curCluster.ReplicaMap(ntsClass, ntsOpts(w[1])), w[2:], "[]")
+	case "resetord":
+		return ordReset(w)
+	case "okey", "xokey":
+		return ordKeys(w)
 	case "resetpol":
 		return polReset(w)
 	case "pev":
@@ -762,6 +766,11 @@ func main() {
 		ru.exhaustive(3, 1500)
 	} else {
 		ru.exhaustive(1, 60)
+	}
+	// the ordered partitioner with ring tokens as Cassandra reports them, lookups for raw partition keys
+	ru.ordFixed()
+	for i := 0; i < 300*mult; i++ {
+		ru.ordScenario()
 	}
 	// the replica map as a function of the history of policy events
 	ru.polFixed()
